@@ -24,7 +24,7 @@ RULE = ('cases = role {requestor, acceptor} x locally configured maximum x peer-
         'messages with data sets of sizes {< fragment, = fragment, 3 x fragment +- 1} in both '
         'directions; non-trivial = one of the two values is 0 or they differ; distinct = distinct '
         '(role, local, peer)'
-        '; plus data sizes for which command set + data set land just below/at/above one PDU; reconf: the entity\'s configured maximum is changed while the association is open')
+        '; plus data sizes for which command set + data set land just below/at/above one PDU; reconf: the entity\'s configured maximum is changed while the association is open; hook: the accepting application gives the association its own maximum in on_association_request')
 ASSUMPTIONS = ['the simulated recv(n) does not allocate n bytes (a 2^32-1 receive buffer is an '
                'OS-level concern outside the model)',
                'data sizes are capped at 6000 bytes: for huge limits all messages fit one fragment']
@@ -42,7 +42,12 @@ def cases(tier, seed):
                     # association is open - what was negotiated stays what it was
                     yield dict(role=role, local=local, peer=peer, seed=seed * 1009 + r,
                                reconf=rnd.choice([None, None, None, 0, 7, 65536, 2 ** 32 - 1]),
-                               chatty=rnd.choice([0, 0, 0, 1, 2]) if role == 'requestor' else 0)
+                               chatty=rnd.choice([0, 0, 0, 1, 2]) if role == 'requestor' else 0,
+                               # hook: the accepting application sets this association's own
+                               # maximum when the request is indicated to it (per-peer limit);
+                               # the entity itself is configured with another value
+                               hook=(rnd.choice([None, None, None, 0, 128, 65536, 2 ** 32 - 1])
+                                     if role == 'acceptor' else None))
 
 
 def _sizes(limit):
@@ -220,7 +225,13 @@ def _acceptor(case):
                     # (in the last association of the case only: no later one is affected)
                     self.max_pdu_length = case['reconf']
                 return iter([(_ds_of(n), 0xFF00) for n in sizes])
-        ae = world.make_ae(Srv, 'SRV', 11112, [rc.IMPLICIT_LE], local)
+
+            def on_association_request(self, asce, assoc):
+                if case.get('hook') is not None:
+                    asce.max_pdu_length = local
+                    world.sim.bump('probe.maximum_set_by_request_hook')
+        ae = world.make_ae(Srv, 'SRV', 11112, [rc.IMPLICIT_LE],
+                           local if case.get('hook') is None else case['hook'])
         ae.timeout = 3600
         ae.add_scp(sopclass.qr_find_scp)
         world.serve_ae(ae, ADDR)
